@@ -1,6 +1,8 @@
 #!/bin/bash
 # muttest.sh <ID> <repo-file> <old-text> <new-text> [tier]: apply a one-off
 # textual change to /repo, run the check, revert. Prints DETECTED or MISSED.
+# no other check may build from /repo while it is modified
+. /verif/lib/env.sh; exec 9>"$WORK/build.lock"; flock 9; export VERIF_BUILD_LOCKED=1
 ID="$1"; F="/repo/$2"; OLD="$3"; NEW="$4"; TIER="${5:-quick}"
 python3 - "$F" "$OLD" "$NEW" <<'PY' || exit 2
 import sys
